@@ -495,3 +495,17 @@ package bpmn
 //@         !evval(ev(old(evlen) + 2)).(bool) && task.active > 1
 //@     iter ensures [interrupt-cancels-a-pending-request @C10]
 //@       !(isRecv(ev(old(evlen))) && evch(ev(old(evlen))) == task.mch && is(evval(ev(old(evlen))), cancelMessage))
+
+// ---------------------------------------------------------------------------
+// flow.go: construction of tokens (C20: every token id is the result of exactly one IGenerator.New call)
+
+//@ func newFlow
+//@   prop C20 C01
+//@   modifies nothing
+//@   ensures [one-draw] evlen == old(evlen) + 1 && isCall(ev(old(evlen))) && evch(ev(old(evlen))) == code("id|IGenerator.New") &&
+//@             evval(ev(old(evlen))) == idGenerator
+//@   ensures [id-is-the-draw] result != nil && fresh(result) && result.id == eva1(ev(old(evlen)))
+//@   ensures [wired] result.current == current && result.tracer == tracer && result.flowNodeMapping == flowNodeMapping &&
+//@             result.flowWaitGroup == flowWaitGroup && result.idGenerator == idGenerator && result.locator == locator &&
+//@             result.definitions == definitions && result.actionTransformer == actionTransformer &&
+//@             result.sequenceFlowId == nil && result.retry == nil && result.terminate == nil
